@@ -1581,9 +1581,16 @@ func (env *LEnv) funCall(ctx context.Context, fun, args *LVal) *LVal {
 	defer env.Runtime.Stack.Pop()
 
 	if npop > 0 {
-		return markTailRec(npop, fun, args)
+		mark := markTailRec(npop, fun, args)
+		// The call being elided is written here.  The frame that takes it
+		// over binds its arguments in ANOTHER environment (the one that made
+		// the loop's first call), so a turn that cannot be bound would be
+		// blamed on that first call; the mark carries the real call site.
+		mark.source = env.loc
+		return mark
 	}
 
+	locOfFirstCall, relocated := env.loc, false
 callf:
 	r := env.call(ctx, fun, args)
 	if r == nil {
@@ -1608,6 +1615,16 @@ callf:
 				return lerr
 			}
 			fun, args = extractMarkTailRec(r)
+			if r.source != nil {
+				// An error binding the next turn's arguments belongs to the
+				// tail call that supplied them.  The location is this
+				// environment's again once the loop is over.
+				if !relocated {
+					relocated = true
+					defer func() { env.loc = locOfFirstCall }()
+				}
+				env.loc = r.source
+			}
 			// The frame is reused for the next turn, which starts like a
 			// fresh call: not yet in its terminal expression.  Left set from
 			// the previous turn, the flag made a self call in the tail of a
